@@ -1330,7 +1330,7 @@ func (app *App) performSwitchover(clusterState map[string]*nodestate.NodeState, 
 	}
 
 	errs2 := util.RunParallel(func(host string) error {
-		if !clusterState[host].PingOk {
+		if state := clusterState[host]; state == nil || !state.PingOk {
 			errMessage := fmt.Sprintf("switchover: failed to ping host %s", host)
 			app.logger.Warn().Msg(errMessage)
 			return fmt.Errorf("%s", errMessage)
@@ -1456,7 +1456,7 @@ func (app *App) performSwitchover(clusterState map[string]*nodestate.NodeState, 
 		return fmt.Errorf("got error on setting new master %s online %w", newMaster, err)
 	}
 	errs = util.RunParallel(func(host string) error {
-		if host == newMaster || !clusterState[host].PingOk {
+		if host == newMaster || clusterState[host] == nil || !clusterState[host].PingOk {
 			return nil
 		}
 		err := app.performChangeMaster(host, newMaster)
